@@ -271,7 +271,15 @@ def _segment(draw, o, groups, chans, counters, version, si):
             chunk_bytes += n * tsize(t)
         data[p] = chunks
         entries.append(ent)
+    header_only = False
     if chunk_bytes == 0:
+        nchunks = 0
+        for p in data:
+            data[p] = []
+    elif o.get('header_only', True) and draw(st.integers(0, 9)) == 0:
+        # a segment that only declares its channels (raw data indexes with n > 0) and holds no chunk yet, as written by
+        # loggers that emit the metadata first and append the raw data in later (often metadata-less) segments
+        header_only = True
         nchunks = 0
         for p in data:
             data[p] = []
@@ -293,7 +301,7 @@ def _segment(draw, o, groups, chans, counters, version, si):
         seg['toc_extra'] = 1 << 5
     if o['pad'] and draw(st.integers(0, 5)) == 0:
         seg['pad'] = draw(st.integers(1, 9))
-    if chunk_bytes == 0 and draw(st.integers(0, 3)) == 0:
+    if (chunk_bytes == 0 or header_only) and draw(st.integers(0, 3)) == 0:
         seg['raw_flag'] = True
     return seg
 
@@ -311,6 +319,8 @@ def spec_classes(fs):
         labels.add('multi_chunk')
     if any(s.get('pad') for s in segs):
         labels.add('padding')
+    if any(s.get('nchunks', 0) == 0 and any(a[2] > 0 for a in (s.get('active') or [])) for s in segs):
+        labels.add('declaring_segment_without_raw_data')
     if any(not s.get('meta', True) for s in segs):
         labels.add('no_metadata_segment')
     paths = set()
